@@ -189,3 +189,257 @@ Print Assumptions C12_apply_meets_spec.
 Theorem C12_run_meets_spec : forall tm argv opts, valid tm argv = true -> xspec tm argv opts (xrun tm argv) = true.
 Proof. exact xrun_meets_spec. Qed.
 Print Assumptions C12_run_meets_spec.
+
+(* --------------------------------------------------------------------------------------------------------------
+   THE TRANSLATED SOURCE of CommandLineArguments::parse (gen/Gen_HeapC12.v, regenerated by tools/cxx2heap.py on every run): the AST-level chain of tests is first_match over the (independently, regex-) extracted dispatch table, one loop trip stores the flag / calls the handler of that rule, and the whole loop follows the model's parse_args
+   -------------------------------------------------------------------------------------------------------------- *)
+From CppUVerif Require Import lib.CSem lib.CMem lib.CHeap gen.Gen_C12 gen.Gen_HeapC12 C12_ParseTie.
+Local Open Scope Z_scope.
+Theorem C12_arg_hyps_satisfiable :
+  forall txt : Z -> bytes,
+  exists arg_is arg_starts : Z -> String.string -> Z,
+  (forall (id : Z) (s : String.string), arg_is id s = b2z (bytes_eqb (txt id) (bs s))) /\
+  (forall (id : Z) (s : String.string), arg_starts id s = b2z (is_prefix (bs s) (txt id))).
+Proof. exact arg_hyps_satisfiable. Qed.
+Print Assumptions C12_arg_hyps_satisfiable.
+
+Theorem C12_dispatch_is_first_match :
+  forall a : bytes, src_rule a = first_match c12_dispatch a.
+Proof. exact dispatch_is_first_match. Qed.
+Print Assumptions C12_dispatch_is_first_match.
+
+Theorem C12_args_layout_is_the_source :
+  off_CommandLineArguments_ac_ = 0 /\
+  off_CommandLineArguments_av_ = 1 /\
+  off_CommandLineArguments_needHelp_ = 2 /\
+  off_CommandLineArguments_verbose_ = 3 /\
+  off_CommandLineArguments_veryVerbose_ = 4 /\
+  off_CommandLineArguments_color_ = 5 /\
+  off_CommandLineArguments_runTestsAsSeperateProcess_ = 6 /\
+  off_CommandLineArguments_listTestGroupNames_ = 7 /\
+  off_CommandLineArguments_listTestGroupAndCaseNames_ = 8 /\
+  off_CommandLineArguments_listTestLocations_ = 9 /\
+  off_CommandLineArguments_runIgnored_ = 10 /\
+  off_CommandLineArguments_reversing_ = 11 /\
+  off_CommandLineArguments_crashOnFail_ = 12 /\
+  off_CommandLineArguments_rethrowExceptions_ = 13 /\ cells_CommandLineArguments = 22.
+Proof. exact args_layout_is_the_source. Qed.
+Print Assumptions C12_args_layout_is_the_source.
+
+Theorem C12_tables_cover_dispatch :
+  forallb covered c12_dispatch = true.
+Proof. exact tables_cover_dispatch. Qed.
+Print Assumptions C12_tables_cover_dispatch.
+
+Theorem C12_src_args_parse_loop_step :
+  forall (txt : Z -> bytes) (arg_is arg_starts : Z -> String.string -> Z),
+  (forall (id : Z) (s : String.string), arg_is id s = b2z (bytes_eqb (txt id) (bs s))) ->
+  (forall (id : Z) (s : String.string), arg_starts id s = b2z (is_prefix (bs s) (txt id))) ->
+  forall (fuel0 fuel : nat) (plugin : Z) (h : heap) (ob vb : nat) (ids : list Z) (evs : list aev12)
+  (hres : list (Z * Z)) (cp i : Z),
+  args_at h ob vb ids ->
+  0 <= i < Z.of_nat (length ids) ->
+  src_args_parse_loop1 arg_is arg_starts fuel0 (S fuel) (HPtr ob 0) plugin h evs hres cp i =
+  match step_of (first_match c12_dispatch (txt (nth (Z.to_nat i) ids 0))) ob h evs hres cp i with
+  | Go (mem, evs0, hres0, cp0, i0) =>
+  if z2b (c_eq cp0 0)
+  then Done (0, mem, evs0, hres0)
+  else
+  src_args_parse_loop1 arg_is arg_starts fuel0 fuel (HPtr ob 0) plugin mem evs0 hres0 cp0
+  (cw 32 true (i0 + 1))
+  | Done r => Done r
+  | Oob => Oob
+  | NoFuel => NoFuel
+  end.
+Proof. exact src_args_parse_loop_step. Qed.
+Print Assumptions C12_src_args_parse_loop_step.
+
+Theorem C12_step_flag_rule :
+  forall (txt : Z -> bytes) (arg_is arg_starts : Z -> String.string -> Z),
+  (forall (id : Z) (s : String.string), arg_is id s = b2z (bytes_eqb (txt id) (bs s))) ->
+  (forall (id : Z) (s : String.string), arg_starts id s = b2z (is_prefix (bs s) (txt id))) ->
+  forall (fuel0 fuel : nat) (plugin : Z) (h : heap) (ob vb : nat) (ids : list Z) (evs : list aev12)
+  (hres : list (Z * Z)) (cp i : Z) (lit : bytes) (k v : Z),
+  args_at h ob vb ids ->
+  0 <= i < Z.of_nat (length ids) ->
+  cp <> 0 ->
+  first_match c12_dispatch (txt (nth (Z.to_nat i) ids 0)) = Some (MExact, lit) ->
+  lookup flag_table lit = Some (k, v, false) ->
+  src_args_parse_loop1 arg_is arg_starts fuel0 (S fuel) (HPtr ob 0) plugin h evs hres cp i =
+  src_args_parse_loop1 arg_is arg_starts fuel0 fuel (HPtr ob 0) plugin (store_cell h ob k (VInt v)) evs hres cp
+  (cw 32 true (i + 1)).
+Proof. exact step_flag_rule. Qed.
+Print Assumptions C12_step_flag_rule.
+
+Theorem C12_step_help_rule :
+  forall (txt : Z -> bytes) (arg_is arg_starts : Z -> String.string -> Z),
+  (forall (id : Z) (s : String.string), arg_is id s = b2z (bytes_eqb (txt id) (bs s))) ->
+  (forall (id : Z) (s : String.string), arg_starts id s = b2z (is_prefix (bs s) (txt id))) ->
+  forall (fuel0 fuel : nat) (plugin : Z) (h : heap) (ob vb : nat) (ids : list Z) (evs : list aev12)
+  (hres : list (Z * Z)) (cp i : Z) (lit : bytes) (k v : Z),
+  args_at h ob vb ids ->
+  0 <= i < Z.of_nat (length ids) ->
+  first_match c12_dispatch (txt (nth (Z.to_nat i) ids 0)) = Some (MExact, lit) ->
+  lookup flag_table lit = Some (k, v, true) ->
+  src_args_parse_loop1 arg_is arg_starts fuel0 (S fuel) (HPtr ob 0) plugin h evs hres cp i =
+  Done (0, store_cell h ob k (VInt v), evs, hres).
+Proof. exact step_help_rule. Qed.
+Print Assumptions C12_step_help_rule.
+
+Theorem C12_step_handler_rule :
+  forall (txt : Z -> bytes) (arg_is arg_starts : Z -> String.string -> Z),
+  (forall (id : Z) (s : String.string), arg_is id s = b2z (bytes_eqb (txt id) (bs s))) ->
+  (forall (id : Z) (s : String.string), arg_starts id s = b2z (is_prefix (bs s) (txt id))) ->
+  forall (fuel0 fuel : nat) (plugin : Z) (h : heap) (ob vb : nat) (ids : list Z) (evs : list aev12)
+  (hres : list (Z * Z)) (cp i : Z) (lit : bytes) (name la : String.string) (fl : list Z)
+  (asg adv : bool) (rv ni : Z),
+  args_at h ob vb ids ->
+  0 <= i < Z.of_nat (length ids) ->
+  cp <> 0 ->
+  first_match c12_dispatch (txt (nth (Z.to_nat i) ids 0)) = Some (MPrefix, lit) ->
+  lookup handler_table lit = Some (name, la, fl, asg, adv) ->
+  src_args_parse_loop1 arg_is arg_starts fuel0 (S fuel) (HPtr ob 0) plugin h evs ((rv, ni) :: hres) cp i =
+  (if asg && (rv =? 0)
+  then Done (0, h, evs ++ [AHandler name i la fl], hres)
+  else
+  src_args_parse_loop1 arg_is arg_starts fuel0 fuel (HPtr ob 0) plugin h (evs ++ [AHandler name i la fl]) hres
+  (if asg then rv else cp) (cw 32 true ((if adv then ni else i) + 1))).
+Proof. exact step_handler_rule. Qed.
+Print Assumptions C12_step_handler_rule.
+
+Theorem C12_step_no_rule :
+  forall (txt : Z -> bytes) (arg_is arg_starts : Z -> String.string -> Z),
+  (forall (id : Z) (s : String.string), arg_is id s = b2z (bytes_eqb (txt id) (bs s))) ->
+  (forall (id : Z) (s : String.string), arg_starts id s = b2z (is_prefix (bs s) (txt id))) ->
+  forall (fuel0 fuel : nat) (plugin : Z) (h : heap) (ob vb : nat) (ids : list Z) (evs : list aev12)
+  (hres : list (Z * Z)) (cp i : Z),
+  args_at h ob vb ids ->
+  0 <= i < Z.of_nat (length ids) ->
+  first_match c12_dispatch (txt (nth (Z.to_nat i) ids 0)) = None ->
+  src_args_parse_loop1 arg_is arg_starts fuel0 (S fuel) (HPtr ob 0) plugin h evs hres cp i =
+  Done (0, h, evs, hres).
+Proof. exact step_no_rule. Qed.
+Print Assumptions C12_step_no_rule.
+
+Theorem C12_gdn_flags_are_the_models :
+  forall (tm : N) (c : config) (a : bytes) (next : option bytes),
+  action tm c MPrefix
+  (bs
+  (String.String (Ascii.Ascii true false true true false true false false)
+  (String.String (Ascii.Ascii false false true false true true true false) String.EmptyString))) a next =
+  add_group_dot_name (z2b 0) (z2b 0)
+  (length
+  (bs
+  (String.String (Ascii.Ascii true false true true false true false false)
+  (String.String (Ascii.Ascii false false true false true true true false) String.EmptyString)))) c a
+  next /\
+  action tm c MPrefix
+  (bs
+  (String.String (Ascii.Ascii true false true true false true false false)
+  (String.String (Ascii.Ascii true true false false true true true false)
+  (String.String (Ascii.Ascii false false true false true true true false) String.EmptyString)))) a
+  next =
+  add_group_dot_name (z2b 1) (z2b 0)
+  (length
+  (bs
+  (String.String (Ascii.Ascii true false true true false true false false)
+  (String.String (Ascii.Ascii true true false false true true true false)
+  (String.String (Ascii.Ascii false false true false true true true false) String.EmptyString)))))
+  c a next /\
+  action tm c MPrefix
+  (bs
+  (String.String (Ascii.Ascii true false true true false true false false)
+  (String.String (Ascii.Ascii false false false true true true true false)
+  (String.String (Ascii.Ascii false false true false true true true false) String.EmptyString)))) a
+  next =
+  add_group_dot_name (z2b 0) (z2b 1)
+  (length
+  (bs
+  (String.String (Ascii.Ascii true false true true false true false false)
+  (String.String (Ascii.Ascii false false false true true true true false)
+  (String.String (Ascii.Ascii false false true false true true true false) String.EmptyString)))))
+  c a next /\
+  action tm c MPrefix
+  (bs
+  (String.String (Ascii.Ascii true false true true false true false false)
+  (String.String (Ascii.Ascii false false false true true true true false)
+  (String.String (Ascii.Ascii true true false false true true true false)
+  (String.String (Ascii.Ascii false false true false true true true false) String.EmptyString)))))
+  a next =
+  add_group_dot_name (z2b 1) (z2b 1)
+  (length
+  (bs
+  (String.String (Ascii.Ascii true false true true false true false false)
+  (String.String (Ascii.Ascii false false false true true true true false)
+  (String.String (Ascii.Ascii true true false false true true true false)
+  (String.String (Ascii.Ascii false false true false true true true false) String.EmptyString))))))
+  c a next.
+Proof. exact gdn_flags_are_the_models. Qed.
+Print Assumptions C12_gdn_flags_are_the_models.
+
+Theorem C12_model_oracle_consistent :
+  forall (tm : N) (n : nat) (args : list bytes) (c : config) (i : Z) (tail : list (Z * Z)),
+  (length args <= n)%nat -> consistent tm c i args (model_oracle tm c i args ++ tail).
+Proof. exact model_oracle_consistent. Qed.
+Print Assumptions C12_model_oracle_consistent.
+
+Theorem C12_src_args_parse_spec :
+  forall (txt : Z -> bytes) (arg_is arg_starts : Z -> String.string -> Z),
+  (forall (id : Z) (s : String.string), arg_is id s = b2z (bytes_eqb (txt id) (bs s))) ->
+  (forall (id : Z) (s : String.string), arg_starts id s = b2z (is_prefix (bs s) (txt id))) ->
+  forall (tm : N) (fuel : nat) (plugin : Z) (h : heap) (ob vb : nat) (ids : list Z)
+  (evs : list aev12) (hres : list (Z * Z)) (c : config),
+  args_at h ob vb ids ->
+  Z.of_nat (length ids) < 2 ^ 31 ->
+  flags_rep h ob c ->
+  consistent tm c 1 (map txt (tl ids)) hres ->
+  (length (tl ids) < fuel)%nat ->
+  exists (h' : heap) (used hres' : list (Z * Z)),
+  hres = used ++ hres' /\
+  length used = length (events_of (model_walk tm c 1 (map txt (tl ids)))) /\
+  src_args_parse arg_is arg_starts fuel h evs hres (HPtr ob 0) plugin =
+  FOk
+  (ret_code (parse_args tm c (map txt (tl ids))), h',
+  evs ++ events_of (model_walk tm c 1 (map txt (tl ids))), hres') /\
+  same_but_flags h h' ob /\
+  flags_rep h' ob (model_last tm c (map txt (tl ids))) /\
+  cell h' ob 2 =
+  match parse_args tm c (map txt (tl ids)) with
+  | Reject true => Some (VInt 1)
+  | _ => cell h ob 2
+  end /\ parse_args tm c (map txt (tl ids)) <> Unknown.
+Proof. exact src_args_parse_spec. Qed.
+Print Assumptions C12_src_args_parse_spec.
+
+Theorem C12_src_parse_meets_model :
+  forall (txt : Z -> list N) (arg_is arg_starts : Z -> String.string -> Z),
+  (forall (id : Z) (s : String.string), arg_is id s = b2z (bytes_eqb (txt id) (bs s))) ->
+  (forall (id : Z) (s : String.string), arg_starts id s = b2z (is_prefix (bs s) (txt id))) ->
+  forall (tm : N) (fuel : nat) (plugin : Z) (h : heap) (ob vb : nat) (ids : list Z)
+  (evs : list aev12) (hres : list (Z * Z)),
+  args_at h ob vb ids ->
+  Z.of_nat (length ids) < 2 ^ 31 ->
+  flags_rep h ob default_config ->
+  cell h ob 2 = Some (VInt 0) ->
+  consistent tm default_config 1 (map txt (tl ids)) hres ->
+  (length (tl ids) < fuel)%nat ->
+  exists (r : Z) (h' : heap) (evs' : list aev12) (hres' : list (Z * Z)),
+  src_args_parse arg_is arg_starts fuel h evs hres (HPtr ob 0) plugin = FOk (r, h', evs ++ evs', hres') /\
+  same_but_flags h h' ob /\
+  map ev_key evs' = walk_handlers (model_walk tm default_config 1 (map txt (tl ids))) /\
+  length hres = (length evs' + length hres')%nat /\
+  match parse tm (map txt ids) with
+  | Reject hp => r = 0 /\ cell h' ob 2 = Some (VInt (b2z hp))
+  | Accept c => r = 1 /\ flags_rep h' ob c /\ cell h' ob 2 = Some (VInt 0)
+  | Unknown => False
+  end.
+Proof. exact src_parse_meets_model. Qed.
+Print Assumptions C12_src_parse_meets_model.
+
+Theorem C12_ex_premises :
+  args_at (ex_heap [0; 1; 2; 3; 4]) 0 1 [0; 1; 2; 3; 4] /\
+  flags_rep (ex_heap [0; 1; 2; 3; 4]) 0 default_config /\
+  cell (ex_heap [0; 1; 2; 3; 4]) 0 2 = Some (VInt 0) /\
+  consistent 0 default_config 1 (map ex_txt (tl [0; 1; 2; 3; 4])) [(1, 3)].
+Proof. exact ex_premises. Qed.
+Print Assumptions C12_ex_premises.
